@@ -29,7 +29,47 @@ func isAtomicAddOn(ins ssa.Instruction, typ, field string, sign int) bool {
 	return ok && ((sign > 0 && k > 0) || (sign < 0 && k < 0))
 }
 
+// unwindLeak: a call into module code (or a dynamic call) is reachable after inc while no deferred restore is registered:
+// a panic unwinding through that call skips every explicit restore, so the counter leaks. Returns the offending call.
+func unwindLeak(fn *ssa.Function, inc ssa.Instruction, isRestore func(ssa.Instruction) bool) (ssa.Instruction, []*ssa.BasicBlock) {
+	risky := func(x ssa.Instruction) bool {
+		call, ok := x.(*ssa.Call)
+		if !ok || isRestore(x) {
+			return false
+		}
+		if call.Call.IsInvoke() {
+			return true
+		}
+		if f := calleeOf(call); f != nil {
+			return f.Pkg() != nil && strings.HasPrefix(f.Pkg().Path(), modPath)
+		}
+		_, isBuiltin := call.Call.Value.(*ssa.Builtin)
+		return !isBuiltin
+	}
+	q := &pathQuery{fn: fn, target: risky, stop: func(x ssa.Instruction) bool {
+		_, isDefer := x.(*ssa.Defer)
+		return isDefer && isRestore(x)
+	}}
+	return q.after(inc)
+}
+
+func boundsRule(c *Ctx, rule string, rels []string, floor int) {
+	n := 0
+	perFn := map[*ssa.Function]int{}
+	for _, st := range sliceBoundsAudit(c, rels) {
+		n++
+		perFn[st.fn]++
+		c.ob(rule, fnKey(st.fn)+"#"+st.what+"-bounds-"+itoa(perFn[st.fn]), st.ins.Pos(), st.ok, st.why+": an integer supplied by the running program reaches this "+st.what+" without the comparisons that keep it in range on every path (the values compared must be the ones used: a test made before a clamp, or against the length of a different value, proves nothing) - the Go runtime panics instead of the builtin returning its documented result or error")
+	}
+	c.Sites[rule+"#runtime-int-bounds-sites"] = n
+	if n < floor {
+		c.undecided("%s: %d index/slice/make sites with run-time integer bounds found, floor %d", rule, n, floor)
+	}
+}
+
 func runC04(c *Ctx) {
+	c.rule("C04-R12", "BND: in pkg/interpreter and pkg/vm every index, slice expression and make whose bound derives from an integer supplied by the running program (a type-asserted number, the payload of a VM value) is proven in range by dominating comparisons on the very SSA values used: 0 <= low <= high <= len(x), 0 <= i < len(x), make length >= 0 (phi-aware: clamps count, tests made before a clamp do not)")
+	boundsRule(c, "C04-R12", []string{interpPkg, vmPkg}, 6)
 	// ---------- L1 bounded work ----------
 	c.rule("C04-R1", "MPT/ORD: in Interpreter.EvaluateExpression the depth counter is incremented and compared with maxEvalDepth before the dispatch type-switch (the over-limit edge returns an error without dispatching), and after the increment every path to a return passes a decrement (explicit, or a deferred one registered on that path): the budget cannot leak")
 	if ev := c.mustFn("C04-R1", interpPkg, "Interpreter.EvaluateExpression"); ev != nil {
@@ -67,6 +107,8 @@ func runC04(c *Ctx) {
 			q := &pathQuery{fn: ev, target: isReturn, stop: isDec}
 			hit, path := q.after(inc)
 			c.ob("C04-R1", interpPkg+".Interpreter.EvaluateExpression#depth-decrement-on-every-exit", inc.Pos(), hit == nil, "a return is reachable after the depth increment without a decrement (explicit or deferred on that path): each such exit leaks one level of the interpreter-wide budget until every request fails with 'maximum evaluation depth exceeded'", c.blockPath(path)...)
+			leak, lpath := unwindLeak(ev, inc, isDec)
+			c.ob("C04-R1", interpPkg+".Interpreter.EvaluateExpression#depth-restored-when-a-panic-unwinds", inc.Pos(), leak == nil, "evaluation code runs after the depth increment with no deferred decrement registered: a Go panic unwinding through it (provider method, builtin) and recovered higher up (dispatcher, async block) skips the explicit decrement, the interpreter-wide budget leaks one level per such request, and eventually every route answers 'maximum evaluation depth exceeded' until restart", c.blockPath(lpath)...)
 		}
 	}
 
@@ -810,3 +852,4 @@ func errorIface() *types.Interface {
 	}
 	return errIface
 }
+
